@@ -4,7 +4,7 @@
    there is no transaction id and these statements do not apply).  `cfg` (queue capacity, timer
    resolution) and the initial parameters are arbitrary; `es` ranges over ALL event lists. *)
 From Coq Require Import NArith List.
-From Rodbus Require Import Model.Retry Spec.Lifecycle Spec.ClientSpec Gen.SessionErrors Model.ClientTask Proofs.ClientBase Proofs.C11Proofs Proofs.C10Proofs.
+From Rodbus Require Import Model.Retry Spec.Lifecycle Spec.ClientSpec Gen.SessionErrors Model.ClientTask Proofs.ClientBase Proofs.C11Proofs Proofs.C10Proofs Proofs.C11Alt.
 Import ListNotations.
 Local Open Scope N_scope.
 
@@ -27,6 +27,15 @@ Theorem C11_in_flight_until_completed : forall cfg s e r tx d, ph s = PInFlight 
   let '(s', o) := step cfg s e in ph s' = PInFlight r tx d \/ In (rq_id r) (completed o).
 Proof. exact inflight_progress. Qed.
 Print Assumptions C11_in_flight_until_completed.
+
+(* run level: in the output of ANY run (distinct request ids) writes and completions alternate - a
+   request is written only after the previously written one has completed (`scan` returns None as
+   soon as a second OWire occurs while the id of an earlier OWire has not been completed) *)
+Theorem C11_alternates : forall cfg hn mt rmin rmax es,
+  NoDup (all_accepted cfg (init hn mt rmin rmax) es) ->
+  scan None (snd (run cfg (init hn mt rmin rmax) es)) <> None.
+Proof. exact alternates. Qed.
+Print Assumptions C11_alternates.
 
 (* requests are transmitted in submission order: the ids on the wire are a subsequence (order
    preserved) of the ids in the order of the Submit events *)
